@@ -183,7 +183,7 @@ def convert(raw):
 
 # ------------------------------------------------------------------ generation
 VALS8 = [8, -16, 20, 1, 24, -4]          # 1, -2, 2.5, 0.125, 3, -0.5
-FILLS = [(0, []), (-8, []), (20, 56), ([], []), (0, 0), (-8, 20), (20, -8), ([], 56)]   # (missing, oob) in eighths, [] = NaN
+FILLS = [(0, []), (-8, []), (20, 56), ([], []), (0, 0), (-8, 20), (20, -8), ([], 56), (8, []), (16, 56), (24, 0)]   # (missing, oob) in eighths, [] = NaN; 8, 16, 24 = the whole numbers 1, 2, 3 (a count can coincide with them)
 
 def wig_layouts(length, kmax=3):
     """all lists of <= kmax disjoint non-empty intervals in start order on [0, length)"""
